@@ -18,12 +18,18 @@ def write_project(d, texts):
     for fn, t in texts.items():
         with open(os.path.join(d, fn), "w", encoding="utf-8") as f:
             f.write(t)
+    for v in range(1, 8):                                  # data files for `.file "{c}.bin"` (constants have the values 1..7)
+        with open(os.path.join(d, "%d.bin" % v), "wb") as f:
+            f.write(bytes([v]))
 
 
 def build(mos, d):
     """-> (ok, digest of everything under target/, stdout)"""
     shutil.rmtree(os.path.join(d, "target"), ignore_errors=True)
-    p = subprocess.run([mos, "--no-color", "-e", "Short", "build"], cwd=d, capture_output=True, text=True, timeout=60)
+    try:
+        p = subprocess.run([mos, "--no-color", "-e", "Short", "build"], cwd=d, capture_output=True, text=True, timeout=20)
+    except subprocess.TimeoutExpired:
+        return False, "", "build takes too long (a loop count that resolves to an address): project not used"
     h = hashlib.sha256()
     t = os.path.join(d, "target")
     n = 0
